@@ -385,6 +385,10 @@ type Report struct {
 	Notes   []string
 	Decided []string
 	NotDec  []string
+	// Deferred: reasons for an UNDECIDED verdict that do not stop the run (a donor property that could not be evaluated to
+	// the end): reported at the end, after the violations, which take precedence
+	Deferred []string
+	aborted  string
 }
 
 type RuleStat struct {
@@ -505,6 +509,17 @@ func (r *Report) finish(verifDir string, wall float64, seed int, explanation str
 		st := r.Rules[id]
 		if st.Instances < st.Floor {
 			undec = append(undec, fmt.Sprintf("rule %s matched %d instances, floor is %d (anchor drift: the rule would pass vacuously)", id, st.Instances, st.Floor))
+		}
+	}
+	for _, m := range r.Deferred {
+		dup := false
+		for _, u := range undec {
+			if u == m {
+				dup = true
+			}
+		}
+		if !dup {
+			undec = append(undec, m)
 		}
 	}
 	// thorough: fold in the mutation self-test result written by scripts/mutants.py
@@ -695,10 +710,14 @@ func shareRule(w *World, r *Report, own, statement string, floor int, donorProp,
 		func() {
 			defer func() {
 				if e := recover(); e != nil {
+					// the donor could not be evaluated to the end (one of ITS rules lost its anchor, or crashed): what it decided
+					// up to there is kept, and the borrower's verdict is UNDECIDED unless a violation is found — an anchor lost in
+					// a neighbouring property must not hide what this property's own rules report
 					if u, ok := e.(undecided); ok {
-						undecidedf("%s (shared from %s): %s", own, donorRule, u.msg)
+						d.aborted = u.msg
+					} else {
+						d.aborted = fmt.Sprintf("checker panic in %s: %v", donorProp, e)
 					}
-					panic(e)
 				}
 			}()
 			props[donorProp].run(w, d)
@@ -706,6 +725,13 @@ func shareRule(w *World, r *Report, own, statement string, floor int, donorProp,
 		donorCache[donorProp] = d
 	}
 	r.Rule(own, statement+" (shared: decided by "+donorRule+")", floor)
+	if d.aborted != "" {
+		r.Deferred = append(r.Deferred, fmt.Sprintf("%s (shared from %s): %s", own, donorRule, d.aborted))
+		if st := r.Rules[own]; st != nil {
+			st.Floor = 0
+		}
+	}
+	r.Deferred = append(r.Deferred, d.Deferred...)
 	for _, ob := range d.Obs {
 		if ob.Rule != donorRule {
 			continue
